@@ -24,6 +24,10 @@ rsync -a --exclude '*.vo' --exclude '*.vok' --exclude '*.vos' --exclude '*.glob'
 
 echo "== build and run the translator"
 (cd "$HERE" && timeout 600 go build -o "$WORK/gotrans" .)
+# the synthetic package (constructs that the cqos sources use rarely) is translated as the extra unit GenExtra.v
+mkdir -p "$WORK/repo/v2/internal/synth"
+cp "$HERE/validate/go/v2/internal/synth/synth.go" "$WORK/repo/v2/internal/synth/"
+export GOTRANS_EXTRA=v2/internal/synth
 timeout 600 "$WORK/gotrans" "$WORK/repo" "$WORK/out" > "$WORK/gotrans.log"
 grep -c ' generated ' "$WORK/gotrans.log" | sed 's/^/generated functions: /'
 grep -c ' skipped: ' "$WORK/gotrans.log" | sed 's/^/skipped functions:   /'
@@ -54,13 +58,15 @@ gotest v2 ./priority/divider/ CasesV2Divider
 gotest v2 ./limit/ CasesRate
 gotest v2 ./priority/ CasesV2Prio
 gotest v2 ./priority/utils/ CasesV2Utils
+gotest v2 ./internal/synth/ CasesExtra
 gotest . ./priority/ CasesV1Divider TestGotransValDivider
 gotest . ./priority/ CasesV1Prio TestGotransValPrio
+gotest . ./priority/ CasesV1Utils TestGotransValUtils
 
 echo "== evaluate the generated functions and the models in Coq"
 cp "$HERE"/validate/coq/*.v "$WORK/coq/theories/"
 coqc_ ValCommon
-for v in V2Divider Rate V2Prio V1Divider V1Prio V2Utils; do
+for v in V2Divider Rate V2Prio V1Divider V1Prio V2Utils V1Utils Extra; do
   coqc_ Cases$v
   /usr/bin/time -f "Val$v.v: %es" bash -c "cd '$WORK/coq' && timeout 3600 coqc -Q theories Cqos theories/Val$v.v"
 done
